@@ -143,7 +143,11 @@ static void mode_proj(void){
   for(int k=0;k<10;k++){ vs_fill(&sg,in,fs); if(amp>0.9f) for(int i=0;i<fs*ch;i++) in[i]=amp*((in[i]>0)-(in[i]<0))*(float)fmin(1.0,fabs(in[i])*6);   /* near-full-scale in every channel */
     int len=opus_projection_encode_float(pe,in,fs,buf,12000); if(len<=0) break; int lost=vc_chance(&r,1,10); unsigned char *p=lost?NULL:vc_exact_copy(buf,len); int l=lost?0:len;
     int rf=opus_projection_decode_float(pf,p,l,of,fs,0), r16=opus_projection_decode(p16,p,l,o16,fs,0), r24=opus_projection_decode24(p24,p,l,o24,fs,0), q16=opus_multistream_decode(s16,p,l,x16,fs,0), q24=opus_multistream_decode24(s24,p,l,x24,fs,0); opus_multistream_decode_float(sf,p,l,xf,fs,0); vc_count("proj_frames",1);
-    for(int i=0;i<fs*nin;i++) if(!(fabsf(xf[i])<=1.f)){ clipping_until=k+1; break; }   /* a stream above full scale: the 16-bit path soft-clips it (and the next frame continues the curve) */
+    /* is the 16-bit path soft-clipping a stream in this frame?  Mirror the per-stream clip memories exactly (the library's clipper on copies of the
+       per-stream float output, received frames only: concealment leaves the memory alone, so it can survive a lost frame) */
+    { static float pmem[64]; static float col[5760]; if(k==0) memset(pmem,0,sizeof pmem); int active=0; for(int c2=0;c2<nin;c2++) if(pmem[c2]!=0) active=1; for(int i=0;i<fs*nin;i++) if(!(fabsf(xf[i])<=1.f)){ active=1; break; }
+      if(!lost) for(int c2=0;c2<nin&&c2<64;c2++){ for(int i=0;i<fs;i++) col[i]=xf[i*nin+c2]; opus_pcm_soft_clip(col,fs,1,&pmem[c2]); }
+      clipping_until= active?k:-1; }
     if(rf!=fs||r16!=fs||r24!=fs||q16!=fs||q24!=fs){ vc_viol("proj:count","frame %d: %d %d %d %d %d",k,rf,r16,r24,q16,q24); free(p); break; }
     int bad=0; for(int i=0;i<fs&&!bad;i++) for(int row=0;row<ch;row++){ long long W=0; int S=0; int partial_out=0; long long W24=0; int clipreg=0;
         for(int col=0;col<nin;col++){ int m=(short)(mt[2*(col*ch+row)]|(mt[2*(col*ch+row)+1]<<8)); long long t=((long long)m*x16[i*nin+col]+16384)>>15; W+=t; long long s1=(long long)S+t; if(s1>32767||s1<-32768) partial_out=1; S=(int)(s1>32767?32767:s1<-32768?-32768:s1); W24+=((long long)m*x24[i*nin+col]+16384)>>15; if(x16[i*nin+col]==32767||x16[i*nin+col]==-32768) clipreg=1; }
@@ -151,7 +155,7 @@ static void mode_proj(void){
         if(!partial_out){ if(got!=W){ vc_viol("proj:int16-product","order %d ch %d frame %d sample %d row %d: 16-bit output %d, matrix product of the per-stream 16-bit samples %lld",order,ch,k,i,row,got,W); bad=1; break; } exactn++; }
         else { sat++; int lo=S<satW?S:satW, hi=S>satW?S:satW; if(got<lo||got>hi){ vc_viol((W>32767&&got<0)||(W<-32768&&got>0)||llabs((long long)got-satW)>30000?"proj:int16-wraps":"proj:int16-saturation","order %d ch %d frame %d sample %d row %d: 16-bit output %d, wide sum %lld (saturating accumulate gives %d, saturate-at-end %d)",order,ch,k,i,row,got,W,S,satW); bad=1; break; } }
         if(W24<2147483647LL&&W24>-2147483648LL){ if(o24[i*ch+row]!=(opus_int32)W24){ vc_viol("proj:int24-product","order %d frame %d sample %d row %d: 24-bit output %d, product of per-stream 24-bit samples %lld",order,k,i,row,o24[i*ch+row],W24); bad=1; break; } }
-        if(!IS_FIXED&&!partial_out&&!clipreg&&k>clipping_until&&!lost){ double dev=fabs((double)got-32768.0*of[i*ch+row]); if(dev>maxdev) maxdev=dev; if(dev>nin+2){ vc_viol("proj:int16-vs-float","order %d frame %d sample %d row %d: 16-bit %d vs 32768 x float %.9g differ by %.2f LSB (bound %d)",order,k,i,row,got,32768.0*of[i*ch+row],dev,nin+2); bad=1; break; } } }
+        if(!IS_FIXED&&!partial_out&&!clipreg&&clipping_until<0&&!lost){ double dev=fabs((double)got-32768.0*of[i*ch+row]); if(dev>maxdev) maxdev=dev; if(dev>nin+2){ vc_viol("proj:int16-vs-float","order %d frame %d sample %d row %d: 16-bit %d vs 32768 x float %.9g differ by %.2f LSB (bound %d)",order,k,i,row,got,32768.0*of[i*ch+row],dev,nin+2); bad=1; break; } } }
     free(p); if(bad) break; vc_sig3((uint64_t)order|((uint64_t)ch<<4),(uint64_t)(sat>0)|((uint64_t)lost<<1)|((uint64_t)(g>0)<<2),(uint64_t)(Fs/8000)); }
   vc_count("proj_samples_exact_product",exactn); vc_count("proj_samples_saturating",sat); vc_max("proj_int16_vs_float_max_lsb",maxdev);
   if(vc_want_sample()) vc_sample("{\"mode\":\"proj\",\"order\":%d,\"channels\":%d,\"streams\":%d,\"coupled\":%d,\"amp\":%g,\"gain\":%d,\"saturating_samples\":%ld}",order,ch,streams,coupled,amp,g,sat);
